@@ -15,6 +15,7 @@ Typing: every Python name in scope is bound to (lean term, type) with type one o
 from __future__ import annotations
 
 import ast
+import re
 
 
 class TranslateError(Exception):
@@ -65,7 +66,7 @@ def always_returns(stmts: list[ast.stmt]) -> bool:
     if not stmts:
         return False
     s = stmts[-1]
-    if isinstance(s, ast.Return):
+    if isinstance(s, (ast.Return, ast.Raise)):
         return True
     if isinstance(s, ast.If) and s.orelse:
         return always_returns(s.body) and always_returns(s.orelse)
@@ -396,4 +397,682 @@ def gen_degree_step(an: ast.AST) -> str:
     out.append("")
     out.append("/-- `_vector_degree`, with `recE` for the calls of `_compute_degree_impl` -/")
     out.append("def vectorDegreeG (recE : Expr → Deg) (v : Vec) : Deg :=\n  " + vterm)
+    return "\n".join(out) + "\n"
+
+
+# ======================================================================================================
+#  Expr-valued rule functions: the registered vector gradient rules of autodiff.py
+# ======================================================================================================
+
+SIMPL = {"_simplify_add": "sAdd", "_simplify_sub": "sSub", "_simplify_mul": "sMul",
+         "_simplify_div": "sDiv", "_simplify_neg": "sNeg", "_simplify_pow": "sPow"}
+FUNCS1 = {"abs_": "abs", "cos": "cos", "sin": "sin", "log": "log", "cosh": "cosh", "sinh": "sinh", "exp": "exp",
+          "sqrt": "sqrt", "tan": "tan", "tanh": "tanh"}
+
+
+def lean_rat(v) -> str:
+    from fractions import Fraction
+    f = Fraction(v)
+    if f.denominator == 1:
+        return f"({f.numerator} : Rat)"
+    return f"(({f.numerator} : Rat) / {f.denominator})"
+
+
+class Loop:
+    def __init__(self, uid: int):
+        self.uid = uid
+        self.index = None            # python name of the enumerate index
+        self.streams = {}            # key -> (lean list term, lean element type)
+        self.names = {}              # python loop-variable name -> stream key
+        self.deriv_of = {}           # python loop-variable name -> stream key of its derivative
+        self.used = []               # keys in first-use order
+
+    def ph(self, key: str) -> str:
+        if key not in self.used:
+            self.used.append(key)
+        return f"⟪{self.uid}:{key}⟫"
+
+
+class RuleCompiler:
+    """statement blocks of type Expression -> Lean terms of type Expr"""
+
+    ORDER = ["C", "R", "E", "E1", "E2", "D", "D1", "D2"]
+
+    def __init__(self):
+        self.fresh = 0
+        self.loops: list[Loop] = []
+
+    def new(self, base: str) -> str:
+        self.fresh += 1
+        return f"{base}{self.fresh}"
+
+    # ---- look-ups ----------------------------------------------------------------------------------------
+    def lookup(self, node: ast.AST, env):
+        return env.get(ast.unparse(node))
+
+    # ---- Rat-valued --------------------------------------------------------------------------------------
+    def rat(self, node: ast.AST, env) -> str:
+        b = self.lookup(node, env)
+        if b is not None and b[1] in ("Rat",):
+            return b[0]
+        if b is not None and b[1] == "Nat":
+            return f"(({b[0]} : Nat) : Rat)"
+        if isinstance(node, ast.Constant) and isinstance(node.value, (int, float)) and not isinstance(node.value, bool):
+            return lean_rat(node.value)
+        if isinstance(node, ast.UnaryOp) and isinstance(node.op, ast.USub) and isinstance(node.operand, ast.Constant):
+            return lean_rat(-node.operand.value)
+        if isinstance(node, ast.Call) and isinstance(node.func, ast.Name) and node.func.id == "float" and len(node.args) == 1:
+            return self.rat(node.args[0], env)
+        if isinstance(node, ast.BinOp) and isinstance(node.op, (ast.Add, ast.Sub, ast.Mult)):
+            op = {ast.Add: "+", ast.Sub: "-", ast.Mult: "*"}[type(node.op)]
+            return f"({self.rat(node.left, env)} {op} {self.rat(node.right, env)})"
+        if isinstance(node, ast.Subscript):
+            base = self.lookup(node.value, env)
+            sl = node.slice
+            if base is not None and base[1] == "RatList" and isinstance(sl, ast.Name):
+                # coeffs[i]: i the index of an enclosing loop over the vector the coefficients belong to
+                for lp in reversed(self.loops):
+                    if lp.index == sl.id and "C" in lp.streams and lp.streams["C"][0] == base[0]:
+                        return lp.ph("C")
+                ib = env.get(sl.id)
+                if ib is not None and ib[1] == "Nat":
+                    return f"({base[0]}.getD {ib[0]} 0)"
+            if base is not None and base[1] == "RatMat" and isinstance(sl, ast.Tuple) and len(sl.elts) == 2 \
+                    and all(isinstance(e, ast.Name) for e in sl.elts):
+                i, j = sl.elts[0].id, sl.elts[1].id
+                outer = next((lp for lp in self.loops if lp.index == i), None)
+                inner = next((lp for lp in self.loops if lp.index == j), None)
+                if outer is not None and inner is not None and outer is not inner:
+                    outer.streams.setdefault("R", (base[0], "List Rat"))
+                    if outer.streams["R"][0] != base[0]:
+                        raise TranslateError(f"two different matrices indexed by one loop (line {node.lineno})")
+                    row = outer.ph("R")
+                    inner.streams.setdefault("C", (row, "Rat"))
+                    if inner.streams["C"][0] != row:
+                        raise TranslateError(f"inner loop indexes two different rows (line {node.lineno})")
+                    return inner.ph("C")
+        raise TranslateError(f"unsupported numeric expression {ast.unparse(node)!r} at line {getattr(node, 'lineno', '?')}")
+
+    def ratlist(self, node: ast.AST, env) -> str:
+        b = self.lookup(node, env)
+        if b is not None and b[1] == "RatList":
+            return b[0]
+        # Q_sym[i, :]
+        if isinstance(node, ast.Subscript) and isinstance(node.slice, ast.Tuple) and len(node.slice.elts) == 2:
+            base = self.lookup(node.value, env)
+            i, c = node.slice.elts
+            if (base is not None and base[1] == "RatMat" and isinstance(i, ast.Name) and isinstance(c, ast.Slice)
+                    and c.lower is None and c.upper is None and c.step is None):
+                ib = env.get(i.id)
+                if ib is not None and ib[1] == "Nat":
+                    return f"({base[0]}.getD {ib[0]} [])"
+        raise TranslateError(f"unsupported coefficient-list expression {ast.unparse(node)!r} at line {getattr(node, 'lineno', '?')}")
+
+    # ---- Expr-valued -------------------------------------------------------------------------------------
+    def ex(self, node: ast.AST, env) -> str:
+        b = self.lookup(node, env)
+        if b is not None:
+            t, ty = b
+            if ty == "Expr":
+                return t
+            if ty == "Var":
+                return f"(Expr.var {t})"
+            if ty == "Stream":      # loop variable: (loop, key)
+                return t[0].ph(t[1])
+            raise TranslateError(f"{ast.unparse(node)!r} has type {ty}, an expression was expected (line {node.lineno})")
+        if isinstance(node, ast.Call) and isinstance(node.func, ast.Name):
+            fn, args = node.func.id, node.args
+            if fn in SIMPL:
+                return "(" + SIMPL[fn] + " " + " ".join(self.ex(a, env) for a in args) + ")"
+            if fn == "Constant" and len(args) == 1:
+                return f"(Expr.c {self.rat(args[0], env)})"
+            if fn in FUNCS1 and len(args) == 1:
+                return f"(Expr.un .{FUNCS1[fn]} {self.ex(args[0], env)})"
+            if fn == "UnaryOp" and len(args) == 2 and isinstance(args[1], ast.Constant):
+                return f"(Expr.un .{args[1].value} {self.ex(args[0], env)})"
+            if fn == "BinaryOp" and len(args) == 3 and isinstance(args[2], ast.Constant) and args[2].value in BINOP_NAMES:
+                return f"(Expr.bin .{BINOP_NAMES[args[2].value]} {self.ex(args[0], env)} {self.ex(args[1], env)})"
+            if fn == "LinearCombination" and len(args) == 2:
+                vb = self.lookup(args[1], env)
+                if vb is None or vb[1] != "Vec":
+                    raise TranslateError(f"LinearCombination over something that is not a known vector (line {node.lineno})")
+                return f"(Expr.linComb {self.ratlist(args[0], env)} {vb[0]})"
+            if fn == "gradient" and len(args) == 2 and ast.unparse(args[1]) == "wrt" and isinstance(args[0], ast.Name):
+                for lp in reversed(self.loops):
+                    if args[0].id in lp.deriv_of:
+                        return lp.ph(lp.deriv_of[args[0].id])
+                raise TranslateError(f"gradient() of something that is not an element of a differentiated operand (line {node.lineno})")
+        if isinstance(node, ast.Subscript) and isinstance(node.slice, ast.Name):
+            base = self.lookup(node.value, env)
+            ib = env.get(node.slice.id)
+            if base is not None and base[1] == "ExprL" and ib is not None and ib[1] == "Nat":
+                return f"({base[0]}.getD {ib[0]} (Expr.c 0))"
+        raise TranslateError(f"unsupported expression {ast.unparse(node)!r} at line {getattr(node, 'lineno', '?')}")
+
+    # ---- conditions --------------------------------------------------------------------------------------
+    def cond(self, node: ast.AST, env) -> str:
+        if isinstance(node, ast.Compare) and len(node.ops) == 1:
+            l, r, o = node.left, node.comparators[0], node.ops[0]
+            if isinstance(o, ast.Is):
+                lb, rb = self.lookup(l, env), self.lookup(r, env)
+                if lb and rb and lb[1] == rb[1] == "Vec" and "vv:" + ast.unparse(l) in env and "vv:" + ast.unparse(r) in env:
+                    return f"({env['vv:' + ast.unparse(l)][0]}.oid == {env['vv:' + ast.unparse(r)][0]}.oid)"
+            if isinstance(o, (ast.Eq, ast.NotEq)):
+                sym = "==" if isinstance(o, ast.Eq) else "!="
+                lb = self.lookup(l, env)
+                rb_ = self.lookup(r, env)
+                if lb is not None and rb_ is not None and lb[1] == rb_[1] == "Str":
+                    return f"({lb[0]} {sym} {rb_[0]})"
+                if lb is not None and lb[1] == "Nat" and isinstance(r, ast.Constant):
+                    return f"({lb[0]} {sym} {r.value})"
+                return f"({self.rat(l, env)} {sym} {self.rat(r, env)})"
+        raise TranslateError(f"unsupported condition {ast.unparse(node)!r} at line {getattr(node, 'lineno', '?')}")
+
+    # ---- blocks ------------------------------------------------------------------------------------------
+    @staticmethod
+    def skip(s: ast.stmt) -> bool:
+        return isinstance(s, (ast.ImportFrom, ast.Import)) or (isinstance(s, ast.Expr) and isinstance(s.value, ast.Constant))
+
+    def block(self, stmts, env, ind: str) -> str:
+        stmts = [s for s in stmts if not self.skip(s)]
+        if not stmts:
+            raise TranslateError("control reaches the end of a rule without `return`")
+        s, rest = stmts[0], stmts[1:]
+        nl = "\n" + ind
+        if isinstance(s, ast.Return):
+            if s.value is None:
+                raise TranslateError(f"bare return at line {s.lineno}")
+            return self.ex(s.value, env)
+        if isinstance(s, ast.Raise):
+            return "unsupportedRule"
+        tgt = val = None
+        if isinstance(s, ast.Assign) and len(s.targets) == 1 and isinstance(s.targets[0], ast.Name):
+            tgt, val = s.targets[0].id, s.value
+        elif isinstance(s, ast.AnnAssign) and isinstance(s.target, ast.Name) and s.value is not None:
+            tgt, val = s.target.id, s.value
+        if tgt is not None:
+            return self.assign(tgt, val, rest, env, ind)
+        if isinstance(s, ast.If):
+            return self.if_(s, rest, env, ind)
+        if isinstance(s, ast.For):
+            # accumulator initialised a few statements earlier (`result = Constant(0.0); elems = …; for …`)
+            after = [x for x in rest if not self.skip(x)]
+            if len(after) == 1 and isinstance(after[0], ast.Return) and isinstance(after[0].value, ast.Name) \
+                    and ("acc0:" + after[0].value.id) in env:
+                acc = after[0].value.id
+                return self.fold(acc, env[acc][0], s, env, ind)
+            return self.first_match(s, rest, env, ind)
+        raise TranslateError(f"unsupported statement {ast.unparse(s)[:80]!r} at line {s.lineno}")
+
+    def assign(self, name, val, rest, env, ind) -> str:
+        u = ast.unparse(val)
+        env2 = dict(env)
+        b = self.lookup(val, env)
+        if b is not None:                                   # alias
+            env2[name] = b
+            for k, v in list(env.items()):                  # carry refinements (x._variables, vv:x, …) over
+                if k.startswith(u + ".") or k == "vv:" + u or k == "d:" + u or k.startswith("d:" + u + "."):
+                    env2[k.replace(u, name, 1)] = v
+            return self.block(rest, env2, ind)
+        # Q_sym = Q + Q.T
+        if isinstance(val, ast.BinOp) and isinstance(val.op, ast.Add):
+            lb = self.lookup(val.left, env)
+            if lb is not None and lb[1] == "RatMat" and ast.unparse(val.right) == ast.unparse(val.left) + ".T":
+                env2[name] = (f"(qsym {lb[0]})", "RatMat")
+                return self.block(rest, env2, ind)
+        # elems = list(vec._expressions)
+        if isinstance(val, ast.Call) and isinstance(val.func, ast.Name) and val.func.id == "list" and len(val.args) == 1:
+            lb = self.lookup(val.args[0], env)
+            if lb is not None and lb[1] == "ExprList":
+                env2[name] = lb
+                src = ast.unparse(val.args[0])
+                if "d:" + src in env:
+                    env2["d:" + name] = env["d:" + src]
+                return self.block(rest, env2, ind)
+        # left_elems = left._variables if isinstance(left, VectorVariable) else left._expressions
+        if isinstance(val, ast.IfExp):
+            cl = classes_of(val.test, ast.unparse(val.test.args[0])) if isinstance(val.test, ast.Call) and val.test.args else None
+            if cl == ["VectorVariable"]:
+                x = ast.unparse(val.test.args[0])
+                xb = env.get(x)
+                if (xb is not None and xb[1] == "Vec" and ast.unparse(val.body) == f"{x}._variables"
+                        and ast.unparse(val.orelse) == f"{x}._expressions"):
+                    env2[name] = (f"(Vec.elems {xb[0]})", "ExprL")
+                    env2["d:" + name] = env["d:" + x]
+                    return self.block(rest, env2, ind)
+        # X_index = None   (assigned later by the search idiom below)
+        if isinstance(val, ast.Constant) and val.value is None:
+            env2[name] = ("none", "OptNat")
+            return self.block(rest, env2, ind)
+        # count = sum(1 for row in M._variables for var in row if var.name == wrt.name)
+        if isinstance(val, ast.Call) and isinstance(val.func, ast.Name) and val.func.id == "sum" and len(val.args) == 1 \
+                and isinstance(val.args[0], ast.GeneratorExp):
+            ge = val.args[0]
+            if (ast.unparse(ge.elt) == "1" and len(ge.generators) == 2 and ast.unparse(ge.generators[0].target) == "row"
+                    and ast.unparse(ge.generators[1].iter) == "row" and not ge.generators[0].ifs
+                    and [ast.unparse(i) for i in ge.generators[1].ifs] == [f"{ast.unparse(ge.generators[1].target)}.name == wrt.name"]):
+                it = ast.unparse(ge.generators[0].iter)
+                if it.endswith("._variables"):
+                    mb = env.get(it[:-len("._variables")])
+                    if mb is not None and mb[1] == "MVar":
+                        env2[name] = (f"(countName wrt.name {mb[0]}.flat)", "Nat")
+                        return self.block(rest, env2, ind)
+        # accumulator:  acc = Constant(0.0); for …; return acc
+        if u in ("Constant(0.0)", "Constant(0)") and rest and isinstance(rest[0], ast.For):
+            term = self.fold(name, self.ex(val, env), rest[0], env, ind)
+            after = [s for s in rest[1:] if not self.skip(s)]
+            if len(after) == 1 and isinstance(after[0], ast.Return) and ast.unparse(after[0].value) == name:
+                return term
+            raise TranslateError(f"accumulator {name!r} is not returned directly after its loop (line {val.lineno})")
+        # temporary Expr / Rat value
+        if u in ("Constant(0.0)", "Constant(0)"):
+            env2["acc0:" + name] = ("", "marker")
+        for fn_, ty_ in ((self.ex, "Expr"), (self.rat, "Rat"), (self.ratlist, "RatList")):
+            try:
+                env2[name] = (fn_(val, env), ty_)
+                break
+            except TranslateError as e_:
+                err = e_
+        else:
+            raise err
+        return self.block(rest, env2, ind)
+
+    # ---- `if` --------------------------------------------------------------------------------------------
+    def if_(self, s: ast.If, rest, env, ind) -> str:
+        nl = "\n" + ind
+        test = s.test
+        orelse = s.orelse if s.orelse else rest
+        if s.orelse and rest:
+            if not (always_returns(s.body) and always_returns(s.orelse)):
+                raise TranslateError(f"`if`/`else` that may fall through (line {s.lineno})")
+        # isinstance(x, VectorVariable) [and isinstance(y, VectorVariable)] / isinstance(m, MatrixVariable)
+        parts = test.values if isinstance(test, ast.BoolOp) and isinstance(test.op, ast.And) else [test]
+        insts = []
+        for p in parts:
+            if isinstance(p, ast.Call) and isinstance(p.func, ast.Name) and p.func.id == "isinstance" and len(p.args) == 2:
+                insts.append((ast.unparse(p.args[0]), ast.unparse(p.args[1])))
+        # if isinstance(X, VectorVariable): for i, var in enumerate(X._variables): if var.name == wrt.name: N = i; break
+        if (len(insts) == 1 and insts[0][1] == "VectorVariable" and not s.orelse and len(s.body) == 1
+                and isinstance(s.body[0], ast.For) and env.get(insts[0][0], ("", ""))[1] == "Vec"):
+            x = insts[0][0]
+            m = re.fullmatch(r"for i, var in enumerate\(" + re.escape(x) + r"\._variables\):\n    if var\.name == wrt\.name:\n"
+                             r"        (\w+) = i\n        break", ast.unparse(s.body[0]))
+            if m and env.get(m.group(1)) == ("none", "OptNat"):
+                env2 = dict(env)
+                env2[m.group(1)] = (f"(vecFind wrt.name {env[x][0]})", "OptNat")
+                return self.block(rest, env2, ind)
+        if not s.orelse and not always_returns(s.body):
+            raise TranslateError(f"`if` without else whose body may fall through (line {s.lineno})")
+        if insts and len(insts) == len(parts):
+            if all(c == "VectorVariable" for _, c in insts) and all(env.get(x, ("", ""))[1] == "Vec" for x, _ in insts):
+                enva = dict(env)
+                pats = []
+                for x, _ in insts:
+                    vv = self.new("vv")
+                    pats.append(f".vars {vv}")
+                    enva["vv:" + x] = (vv, "VVar")
+                    enva[x + "._variables"] = (f"{vv}.vars", "VarL")
+                a = self.block(s.body, enva, ind + "  ")
+                if len(insts) == 1:
+                    x = insts[0][0]
+                    es = self.new("es")
+                    envb = dict(env)
+                    envb[x + "._expressions"] = (es, "ExprList")
+                    envb["d:" + x + "._expressions"] = env["d:" + x]
+                    bterm = self.block(orelse, envb, ind + "  ")
+                    return (f"match {env[x][0]} with{nl}| {pats[0]} =>{nl}  {a}{nl}| .exprs {es} =>{nl}  {bterm}")
+                bterm = self.block(orelse, env, ind + "  ")
+                scrut = ", ".join(env[x][0] for x, _ in insts)
+                return (f"match {scrut} with{nl}| {', '.join(pats)} =>{nl}  {a}{nl}| {', '.join('_' for _ in insts)} =>{nl}  {bterm}")
+            if len(insts) == 1 and insts[0][1] == "MatrixVariable":
+                mb = env.get(insts[0][0])
+                if mb is not None and mb[1] == "MVar":
+                    return self.block(s.body, env, ind)
+                if mb is not None and mb[1] == "ExprList":
+                    return self.block(orelse, env, ind)
+            raise TranslateError(f"unsupported isinstance test {ast.unparse(test)!r} at line {s.lineno}")
+        # X is not None [and Y is not None]
+        opts = []
+        for p in parts:
+            if (isinstance(p, ast.Compare) and len(p.ops) == 1 and isinstance(p.ops[0], ast.IsNot)
+                    and ast.unparse(p.comparators[0]) == "None" and isinstance(p.left, ast.Name)
+                    and env.get(p.left.id, ("", ""))[1] == "OptNat"):
+                opts.append(p.left.id)
+        if opts and len(opts) == len(parts):
+            els = self.block(orelse, env, ind + "  " * len(opts))
+            enva = dict(env)
+            binders = []
+            for x in opts:
+                bnd = self.new("i")
+                enva[x] = (bnd, "Nat")
+                binders.append(bnd)
+            a = self.block(s.body, enva, ind + "  " * len(opts))
+            # nested matches; the `else` part is repeated in every `none` arm (it still sees the options untested)
+            out, pad = "", ind
+            for x, bnd in zip(opts, binders):
+                out += f"match {env[x][0]} with\n{pad}| none =>\n{pad}  {els}\n{pad}| some {bnd} =>\n{pad}  "
+                pad += "  "
+            return out + a
+        c = self.cond(test, env)
+        return (f"if {c} then{nl}  {self.block(s.body, env, ind + '  ')}{nl}else{nl}  "
+                f"{self.block(orelse, env, ind + '  ')}")
+
+    # ---- first-match loops -------------------------------------------------------------------------------
+    def first_match(self, f: ast.For, rest, env, ind) -> str:
+        nl = "\n" + ind
+        if f.orelse or len(f.body) != 1 or not isinstance(f.body[0], ast.If) or f.body[0].orelse:
+            raise TranslateError(f"unsupported loop shape at line {f.lineno}")
+        inner = f.body[0]
+        idx = None
+        it = f.iter
+        if isinstance(f.target, ast.Tuple) and len(f.target.elts) == 2 and isinstance(it, ast.Call) \
+                and ast.unparse(it.func) == "enumerate" and len(it.args) == 1:
+            idx, var = f.target.elts[0].id, f.target.elts[1].id
+            it = it.args[0]
+        elif isinstance(f.target, ast.Name):
+            var = f.target.id
+        else:
+            raise TranslateError(f"unsupported loop target at line {f.lineno}")
+        if ast.unparse(inner.test) != f"{var}.name == wrt.name":
+            raise TranslateError(f"loop is not a first-match search by name (line {f.lineno})")
+        if not always_returns(inner.body):
+            raise TranslateError(f"first-match body does not return (line {f.lineno})")
+        vb = self.lookup(it, env)
+        if vb is None or vb[1] != "VarL":
+            raise TranslateError(f"first-match search over something that is not a known variable list: {ast.unparse(it)!r}")
+        dflt = self.block(rest, env, ind + "  ")
+        env2 = dict(env)
+        uses_var = any(isinstance(n, ast.Name) and n.id == var for st in inner.body for n in ast.walk(st))
+        if idx is not None:
+            i = self.new("i")
+            env2[idx] = (i, "Nat")
+            if uses_var:
+                raise TranslateError(f"indexed first-match loop whose result uses the element itself (line {f.lineno})")
+            hit = self.block(inner.body, env2, ind + "  ")
+            return f"match findName wrt.name {vb[0]} with{nl}| some {i} =>{nl}  {hit}{nl}| none =>{nl}  {dflt}"
+        if uses_var:
+            x = self.new("x")
+            env2[var] = (x, "Var")
+            # the per-operator table of gradient_vector_unary_sum is translated separately (unSumDeriv)
+            body = [s for s in inner.body if not self.skip(s)]
+            if (len(body) == 1 and isinstance(body[0], ast.If) and isinstance(body[0].test, ast.Compare)
+                    and env.get(ast.unparse(body[0].test.left), ("", ""))[1] == "VOp"):
+                hit = f"unSumDeriv {env[ast.unparse(body[0].test.left)][0]} (Expr.var {x})"
+            else:
+                hit = self.block(inner.body, env2, ind + "  ")
+            return (f"match {vb[0]}.find? (·.name == wrt.name) with{nl}| some {x} =>{nl}  {hit}{nl}| none =>{nl}  {dflt}")
+        hit = self.block(inner.body, env2, ind + "  ")
+        return f"if hasName wrt.name {vb[0]} then{nl}  {hit}{nl}else{nl}  {dflt}"
+
+    # ---- accumulating loops ------------------------------------------------------------------------------
+    def fold(self, acc: str, init: str, f: ast.For, env, ind) -> str:
+        if f.orelse:
+            raise TranslateError(f"for/else at line {f.lineno}")
+        lp = Loop(len(self.loops) + 1 + 10 * self.fresh)
+        self.fresh += 1
+        env2 = dict(env)
+        it, tgt = f.iter, f.target
+        body = f.body
+        # for row in M._expressions: for elem in row:   (a MatrixExpression is kept row-major flattened)
+        if (isinstance(tgt, ast.Name) and len(body) == 1 and isinstance(body[0], ast.For)
+                and ast.unparse(body[0].iter) == tgt.id and isinstance(body[0].target, ast.Name)):
+            lb = self.lookup(it, env)
+            if lb is None or lb[1] != "ExprList" or not ast.unparse(it).endswith("._expressions"):
+                raise TranslateError(f"nested loop over something that is not a known matrix expression (line {f.lineno})")
+            tgt, body = body[0].target, body[0].body
+            self.bind_elems(lp, env2, tgt.id, lb[0] + ".toList", env.get("d:" + ast.unparse(it)), "E", "D")
+        elif isinstance(it, ast.Call) and ast.unparse(it.func) == "enumerate" and len(it.args) == 1 \
+                and isinstance(tgt, ast.Tuple) and len(tgt.elts) == 2:
+            lp.index = tgt.elts[0].id
+            self.bind_iter(lp, env2, tgt.elts[1].id, it.args[0], env, "E", "D")
+            # coefficient list that belongs to this vector (coeffs[i])
+            for k, v in env.items():
+                if v[1] == "RatList":
+                    lp.streams.setdefault("C", (v[0], "Rat"))
+        elif isinstance(it, ast.Call) and ast.unparse(it.func) == "zip" and len(it.args) == 2 \
+                and isinstance(tgt, ast.Tuple) and len(tgt.elts) == 2:
+            self.bind_iter(lp, env2, tgt.elts[0].id, it.args[0], env, "E1", "D1")
+            self.bind_iter(lp, env2, tgt.elts[1].id, it.args[1], env, "E2", "D2")
+        elif isinstance(tgt, ast.Name):
+            self.bind_iter(lp, env2, tgt.id, it, env, "E", "D")
+        else:
+            raise TranslateError(f"unsupported loop header at line {f.lineno}")
+        self.loops.append(lp)
+        try:
+            step = self.fold_body(acc, body, env2, ind)
+        finally:
+            self.loops.pop()
+        keys = [k for k in self.ORDER if k in lp.used]
+        if not keys:
+            raise TranslateError(f"loop body does not depend on the loop (line {f.lineno})")
+        lists = [lp.streams[k][0] for k in keys]
+        tys = [lp.streams[k][1] for k in keys]
+        if any(l is None for l in lists):
+            raise TranslateError(f"derivative of an operand that is not differentiated (line {f.lineno})")
+        if keys == ["E1", "E2", "D1", "D2"]:
+            zipped = f"(({lists[0]}.zip {lists[1]}).zip ({lists[2]}.zip {lists[3]}))"
+            proj = ["p.1.1", "p.1.2", "p.2.1", "p.2.2"]
+            binder = "(p : (Expr × Expr) × (Expr × Expr))"
+        elif len(keys) == 1:
+            zipped, proj, binder = lists[0], ["d"], "d"
+        elif len(keys) == 2:
+            zipped, proj, binder = f"({lists[0]}.zip {lists[1]})", ["p.1", "p.2"], f"(p : {tys[0]} × {tys[1]})"
+        elif len(keys) == 3:
+            zipped = f"({lists[0]}.zip ({lists[1]}.zip {lists[2]}))"
+            proj, binder = ["p.1", "p.2.1", "p.2.2"], f"(p : {tys[0]} × ({tys[1]} × {tys[2]}))"
+        else:
+            raise TranslateError(f"unsupported combination of per-element data {keys} (line {f.lineno})")
+        for k, pr in zip(keys, proj):
+            step = step.replace(f"⟪{lp.uid}:{k}⟫", pr)
+        return f"{zipped}.foldl\n{ind}  (fun acc {binder} => {step}) {init}"
+
+    def bind_iter(self, lp, env2, var, it, env, ekey, dkey):
+        lb = self.lookup(it, env)
+        if lb is None or lb[1] not in ("ExprList", "ExprL"):
+            raise TranslateError(f"loop over something that is not a known element list: {ast.unparse(it)!r} (line {it.lineno})")
+        lst = lb[0] + ".toList" if lb[1] == "ExprList" else lb[0]
+        self.bind_elems(lp, env2, var, lst, env.get("d:" + ast.unparse(it)), ekey, dkey)
+
+    def bind_elems(self, lp, env2, var, lst, dbind, ekey, dkey):
+        lp.streams[ekey] = (lst, "Expr")
+        lp.streams[dkey] = (dbind[0] if dbind else None, "Expr")
+        lp.names[var] = ekey
+        lp.deriv_of[var] = dkey
+        env2[var] = ((lp, ekey), "Stream")
+
+    def fold_body(self, acc, stmts, env, ind) -> str:
+        """loop body: temporaries, at most one nested accumulator, and one update `acc = f(acc, …)` (possibly guarded)"""
+        stmts = [s for s in stmts if not self.skip(s)]
+        env2 = dict(env)
+        env2[acc] = ("acc", "Expr")
+        i = 0
+        while i < len(stmts):
+            s = stmts[i]
+            last = i == len(stmts) - 1
+            tgt = val = None
+            if isinstance(s, ast.Assign) and len(s.targets) == 1 and isinstance(s.targets[0], ast.Name):
+                tgt, val = s.targets[0].id, s.value
+            elif isinstance(s, ast.AnnAssign) and isinstance(s.target, ast.Name) and s.value is not None:
+                tgt, val = s.target.id, s.value
+            if tgt == acc:
+                if not last:
+                    raise TranslateError(f"statements after the accumulator update (line {s.lineno})")
+                return self.ex(val, env2)
+            if tgt is not None:
+                u = ast.unparse(val)
+                if u in ("Constant(0.0)", "Constant(0)") and i + 1 < len(stmts) and isinstance(stmts[i + 1], ast.For):
+                    # nested accumulator; inside it the outer accumulator must not be touched
+                    inner_env = dict(env2); inner_env.pop(acc, None)
+                    env2[tgt] = ("(" + self.fold(tgt, self.ex(val, env2), stmts[i + 1], inner_env, ind + "    ") + ")", "Expr")
+                    i += 2
+                    continue
+                try:
+                    env2[tgt] = (self.ex(val, env2), "Expr")
+                except TranslateError:
+                    env2[tgt] = (self.rat(val, env2), "Rat")
+                i += 1
+                continue
+            if isinstance(s, ast.If) and last and not s.orelse and len(s.body) == 1:
+                upd = self.fold_body(acc, s.body, env2, ind)
+                return f"if {self.cond(s.test, env2)} then {upd} else acc"
+            raise TranslateError(f"unsupported statement in a loop body: {ast.unparse(s)[:60]!r} (line {s.lineno})")
+        raise TranslateError("loop body without an accumulator update")
+
+
+# registered class -> (rule name, ctor in CTORS order resolved at use)
+def registered_rules(ad: ast.AST) -> dict[str, ast.FunctionDef]:
+    reg = find_func(ad, "_register_vector_gradient_rules")
+    out = {}
+    for s in reg.body:
+        if isinstance(s, ast.FunctionDef):
+            for d in s.decorator_list:
+                if isinstance(d, ast.Call) and ast.unparse(d.func) == "register_gradient" and len(d.args) == 1:
+                    c = ast.unparse(d.args[0])
+                    if c in out:
+                        raise TranslateError(f"two gradient rules registered for {c}")
+                    out[c] = s
+        elif isinstance(s, (ast.ImportFrom, ast.Import)) or (isinstance(s, ast.Expr) and isinstance(s.value, ast.Constant)):
+            continue
+        else:
+            raise TranslateError(f"_register_vector_gradient_rules: unexpected statement at line {s.lineno}")
+    return out
+
+
+LEAN_TY = {"Cst": "Cst", "Var": "Var", "Par": "Par", "BinOp": "BinOp", "UnOp": "UnOp", "Expr": "Expr", "RatList": "List Rat",
+           "Vec": "Vec", "VVar": "VVar", "ExprList": "ExprList", "RatMat": "List (List Rat)", "Rat": "Rat", "VOp": "VOp",
+           "MVar": "MVar"}
+
+
+def gen_vec_grad_rules(ad: ast.AST) -> str:
+    rules = registered_rules(ad)
+    known = {c for c, _, _ in CTORS}
+    for c in rules:
+        if c not in known:
+            raise TranslateError(f"gradient rule registered for a class unknown to the model: {c}")
+    out, arms = [], []
+    for cls, ctor, fields in CTORS:
+        if cls not in rules:
+            continue
+        fn = rules[cls]
+        if [a.arg for a in fn.args.args] != ["expr", "wrt"]:
+            raise TranslateError(f"{fn.name}: unexpected signature")
+        comp = RuleCompiler()
+        env = {"expr": ("self", "Expr"), "wrt": ("wrt", "Var")}
+        params, call = ["(wrt : Var)"], ["wrt"]
+        dparams, dcall = [], []
+        for attr, b, ty in fields:
+            params.append(f"({b} : {LEAN_TY[ty]})")
+            call.append(b)
+            key = f"expr.{attr}"
+            env[key] = (b, ty)
+            if ty == "Vec":
+                dparams.append(f"(d{b} : List Expr)"); dcall.append(f"(vecD recE {b})")
+                env["d:" + key] = (f"d{b}", "ExprL")
+            elif ty == "ExprList":
+                dparams.append(f"(d{b} : List Expr)"); dcall.append(f"({b}.toList.map recE)")
+                env[key + "._expressions"] = (b, "ExprList")
+                env["d:" + key + "._expressions"] = (f"d{b}", "ExprL")
+            elif ty == "VVar":
+                env[key + "._variables"] = (f"{b}.vars", "VarL")
+            elif ty == "MVar":
+                pass
+        name = f"{ctor}RuleG"
+        body = comp.block(fn.body, env, "  ")
+        out.append(f"/-- `{fn.name}` (registered for `{cls}`" + (f", operand kind `{ctor}`" if cls == "MatrixSum" else "") + ") -/")
+        out.append(f"def {name} {' '.join(params + dparams)} (self : Expr) : Expr :=\n  {body}\n")
+        binders = " ".join(b for _, b, _ in fields)
+        arms.append((ctor, binders, f"{name} {' '.join(call + dcall)} (.{ctor} {binders})"))
+    return "\n".join(out), arms
+
+
+def _paren(t: str) -> str:
+    t2 = t.lstrip()
+    return f"({t})" if t2.startswith(("match ", "if ")) else t
+
+
+_orig_block = RuleCompiler.block
+def _block_paren(self, stmts, env, ind):
+    return _paren(_orig_block(self, stmts, env, ind))
+RuleCompiler.block = _block_paren
+
+
+def gen_grad_step(ad: ast.AST) -> str:
+    """the registered vector rules (whole bodies) and the dispatch of `gradient` / `_gradient_cached` as one
+    non-recursive step functional `gradStepG wrt recE`"""
+    rules_txt, arms = gen_vec_grad_rules(ad)
+    fn = find_func(ad, "_gradient_cached")
+    if [a.arg for a in fn.args.args] != ["expr", "wrt"]:
+        raise TranslateError("_gradient_cached: unexpected signature")
+    # import aliases inside the function (Variable as Var)
+    alias = {}
+    for s in fn.body:
+        if isinstance(s, ast.ImportFrom):
+            for a in s.names:
+                alias[a.asname or a.name] = a.name
+    body = [s for s in fn.body if not RuleCompiler.skip(s)]
+    # first statement: registered rules take precedence
+    if not (body and ast.unparse(body[0]) == "if has_gradient_rule(expr):\n    return apply_gradient_rule(expr, wrt)"):
+        raise TranslateError("_gradient_cached: does not start with the registered-rule dispatch")
+    g = find_func(ad, "gradient")
+    gb = [s for s in g.body if not RuleCompiler.skip(s)]
+    want = ["if has_gradient_rule(expr):\n    return apply_gradient_rule(expr, wrt)",
+            "depth = _estimate_tree_depth(expr)",
+            "if depth >= _RECURSION_THRESHOLD:\n    return _gradient_iterative(expr, wrt)",
+            "return _gradient_cached(expr, wrt)"]
+    if [ast.unparse(s) for s in gb] != want:
+        raise TranslateError("gradient(): the three-tier dispatch has changed shape")
+    branches = {}
+    for s in body[1:]:
+        if isinstance(s, ast.If) and not s.orelse:
+            cl = classes_of(s.test, "expr")
+            if cl is None or len(cl) != 1:
+                raise TranslateError(f"_gradient_cached: unexpected top-level test {ast.unparse(s.test)!r}")
+            c = alias.get(cl[0], cl[0])
+            if c in branches:
+                raise TranslateError(f"_gradient_cached: two branches for {c}")
+            if not always_returns(s.body):
+                raise TranslateError(f"_gradient_cached: branch {c} may fall through")
+            branches[c] = s.body
+        elif isinstance(s, ast.Raise) and s is body[-1]:
+            pass
+        else:
+            raise TranslateError(f"_gradient_cached: unsupported top-level statement at line {s.lineno}")
+    reg = {c for c in registered_rules(ad)}
+    extra = set(branches) - {"Constant", "Parameter", "Variable", "BinaryOp", "UnaryOp"}
+    if extra:
+        raise TranslateError(f"_gradient_cached: branches for classes outside the model: {sorted(extra)}")
+    if reg & set(branches):
+        raise TranslateError(f"classes with both a registered rule and a branch: {sorted(reg & set(branches))}")
+    pro_bin = ["left = expr.left", "right = expr.right", "d_left = _gradient_cached(left, wrt)",
+               "d_right = _gradient_cached(right, wrt)"]
+    pro_un = ["operand = expr.operand", "d_operand = _gradient_cached(operand, wrt)"]
+    out = [rules_txt, "",
+           "/-- one step of `gradient(expr, wrt)`: registered rule if the class has one, else the branch of",
+           "    `_gradient_cached`; `recE` stands for every recursive call (`gradient`, `_gradient_cached`) -/",
+           "def gradStepG (wrt : Var) (recE : Expr → Expr) : Expr → Expr"]
+    by_ctor = {a[0]: a for a in arms}
+    for cls, ctor, fields in CTORS:
+        binders = " ".join(b for _, b, _ in fields)
+        if ctor in by_ctor:
+            out.append(f"  | .{ctor} {binders} => {by_ctor[ctor][2]}")
+            continue
+        if cls not in branches:
+            out.append(f"  | .{ctor} {binders} => unsupportedRule")
+            continue
+        stmts = [s for s in branches[cls] if not RuleCompiler.skip(s)]
+        if cls == "BinaryOp":
+            if [ast.unparse(s) for s in stmts[:4]] != pro_bin:
+                raise TranslateError("_gradient_cached: BinaryOp prologue (children and their derivatives) has changed")
+            out.append(f"  | .bin op l r => binaryRule op l r (recE l) (recE r) (.bin op l r)")
+        elif cls == "UnaryOp":
+            if [ast.unparse(s) for s in stmts[:2]] != pro_un:
+                raise TranslateError("_gradient_cached: UnaryOp prologue has changed")
+            out.append(f"  | .un op a => unaryRule op a (recE a) (.un op a)")
+        else:
+            comp = RuleCompiler()
+            env = {"expr": ("self", "Expr"), "wrt": ("wrt", "Var")}
+            if cls == "Variable":
+                env["expr.name"] = ("x.name", "Str")
+                env["wrt.name"] = ("wrt.name", "Str")
+            out.append(f"  | .{ctor} {binders} => " + comp.block(stmts, env, "      "))
     return "\n".join(out) + "\n"
